@@ -7,6 +7,7 @@ transcription of `impl Merge for SetUnionWithTombstones` / `MapUnionWithTombston
 disjointness invariant themselves and may contain duplicates), in *every* order.
 -/
 import HvLatSpec.Model.Tombstone
+import HvLatSpec.Model.TombCmp
 import Mathlib.Data.List.Perm.Basic
 import Mathlib.Order.Lattice
 import Mathlib.Order.BoundedOrder.Basic
@@ -849,6 +850,650 @@ example :
       [⟨[(1, [10]), (2, [20])], []⟩, ⟨[(1, [11]), (3, [])], [2]⟩, ⟨[(2, [21])], []⟩]
     (mergeAll setOps bot rs).map = [(1, [10, 11])] ∧ (mergeAll setOps bot rs).tomb = [2] ∧
     (mergeAll setOps bot rs.reverse).map = [(1, [11, 10])] := by decide
+
+end TMap
+
+/-! ### comparisons: `PartialOrd::partial_cmp` / `PartialEq::eq` of the two tombstone lattices
+
+(model: `Model/TombCmp.lean`; the decision tables come from `Gen/TombCmp.lean`, regenerated from the Rust source
+on every run, so these theorems are re-checked against the tables that exist) -/
+
+section CmpSets
+variable {α : Type} [DecidableEq α]
+
+theorem aux_subB_iff (a b : List α) : subB a b = true ↔ ∀ x ∈ a, x ∈ b := by
+  simp [subB]
+
+/-- the three-way answer of a partial order from its two `≤` tests -/
+def ordOf (p q : Bool) : Option Ordering :=
+  if p then (if q then some .eq else some .lt) else if q then some .gt else none
+
+theorem aux_sub_len {a b : List α} (ha : a.Nodup) (h : subB a b = true) : a.length ≤ b.length :=
+  (List.subperm_of_subset ha ((aux_subB_iff a b).mp h)).length_le
+
+theorem aux_sub_perm {a b : List α} (ha : a.Nodup) (h : subB a b = true) (hl : b.length ≤ a.length) :
+    subB b a = true :=
+  (aux_subB_iff b a).mpr fun x hx =>
+    ((List.subperm_of_subset ha ((aux_subB_iff a b).mp h)).perm_of_length_le hl).mem_iff.mpr hx
+
+/-- `set_cmp` on duplicate-free backings is the inclusion order -/
+theorem aux_setCmp_spec (a b : List α) (ha : a.Nodup) (hb : b.Nodup) :
+    setCmp a b = ordOf (subB a b) (subB b a) := by
+  unfold setCmp
+  rcases Nat.lt_trichotomy a.length b.length with hlt | heq | hgt
+  · rw [Nat.compare_eq_lt.mpr hlt]
+    have nb : subB b a = false := by
+      cases h : subB b a with
+      | false => rfl
+      | true => have := aux_sub_len hb h; omega
+    cases h : subB a b <;> simp [ordOf, nb]
+  · rw [Nat.compare_eq_eq.mpr heq]
+    cases h : subB a b with
+    | true => simp [ordOf, aux_sub_perm ha h (by omega)]
+    | false =>
+      have nb : subB b a = false := by
+        cases h2 : subB b a with
+        | false => rfl
+        | true => have := aux_sub_perm hb h2 (by omega); rw [h] at this; cases this
+      simp [ordOf, nb]
+  · rw [Nat.compare_eq_gt.mpr hgt]
+    have na : subB a b = false := by
+      cases h : subB a b with
+      | false => rfl
+      | true => have := aux_sub_len ha h; omega
+    cases h : subB b a <;> simp [ordOf, na]
+
+/-- every item of `a` outside the filter `f` is in `b` -/
+def coveredB (a b f : List α) : Bool := a.all fun x => b.contains x || f.contains x
+
+theorem aux_anyOutside (a b f : List α) : anyOutside a b f = !coveredB a b f := by
+  unfold anyOutside coveredB
+  induction a with
+  | nil => rfl
+  | cons x a ih =>
+    simp only [List.filter_cons, List.all_cons]
+    cases hf : f.contains x <;> cases hb : b.contains x <;> simp_all
+
+namespace TSet
+
+/-- the order of the lattice, decided on the representation: `a ≤ b` iff `a`'s tombstones are `b`'s and every
+live item of `a` is live or tombstoned in `b` -/
+def leB (a b : TSet α) : Bool := subB a.tomb b.tomb && coveredB a.live b.live b.tomb
+
+theorem aux_leB_iff (a b : TSet α) :
+    leB a b = true ↔ (∀ x ∈ a.tomb, x ∈ b.tomb) ∧ ∀ x ∈ a.live, x ∈ b.live ∨ x ∈ b.tomb := by
+  simp [leB, subB, coveredB]
+
+/-- **`a ≤ b` ⇔ merging `a` into `b` changes nothing** (neither the live set nor the tombstones) -/
+theorem le_iff_merge_noop (a b : TSet α) (hbd : b.Disjoint) :
+    leB a b = true ↔
+      ∀ x, (x ∈ (merge b a).1.live ↔ x ∈ b.live) ∧ (x ∈ (merge b a).1.tomb ↔ x ∈ b.tomb) := by
+  rw [aux_leB_iff]
+  constructor
+  · rintro ⟨ht, hl⟩ x
+    rw [aux_mem_merge_live, aux_mem_merge_tomb]
+    have := hbd x; have := ht x; have := hl x
+    tauto
+  · intro h
+    have ht : ∀ x ∈ a.tomb, x ∈ b.tomb := fun x hx => ((h x).2).mp ((aux_mem_merge_tomb b a x).mpr (Or.inr hx))
+    refine ⟨ht, fun x hx => ?_⟩
+    by_cases hxt : x ∈ b.tomb
+    · exact Or.inr hxt
+    · by_cases hxa : x ∈ a.tomb
+      · exact Or.inr (ht x hxa)
+      · exact Or.inl (((h x).1).mp ((aux_mem_merge_live b a x).mpr ⟨Or.inr ⟨hx, hxt⟩, hxa⟩))
+
+/-- … ⇔ the `changed` flag of that merge is `false` -/
+theorem le_iff_merge_flag_false (a b : TSet α) (hb : b.WF) (hbd : b.Disjoint) :
+    leB a b = true ↔ (merge b a).2 = false := by
+  constructor
+  · intro h
+    have hs := (le_iff_merge_noop a b hbd).mp h
+    have hw := merge_wf b a hb
+    have pl : (merge b a).1.live.Perm b.live := (List.perm_ext_iff_of_nodup hw.1 hb.1).mpr fun x => (hs x).1
+    have pt : (merge b a).1.tomb.Perm b.tomb := (List.perm_ext_iff_of_nodup hw.2 hb.2).mpr fun x => (hs x).2
+    have e1 := pl.length_eq; have e2 := pt.length_eq
+    simp only [merge] at e1 e2 ⊢
+    rw [e1, e2]; simp
+  · intro h
+    exact (le_iff_merge_noop a b hbd).mpr (changed_false_imp_same b a hb hbd h)
+
+/-- **`partial_cmp` is the order of the lattice**: `Some(Less)` ⇔ `a ≤ b` only, `Some(Greater)` ⇔ `b ≤ a` only,
+`Some(Equal)` ⇔ both, `None` ⇔ neither — for duplicate-free states that keep live and tombstoned apart
+(what merges produce, `reachable_disjoint_wf`).  The decision tables are the ones regenerated from the source. -/
+theorem cmp_spec (a b : TSet α) (ha : a.WF) (hb : b.WF) (had : a.Disjoint) (hbd : b.Disjoint) :
+    cmp a b = ordOf (leB a b) (leB b a) := by
+  unfold cmp setCmpFilter leB
+  rw [aux_setCmp_spec _ _ ha.2 hb.2, aux_setCmp_spec _ _ ha.1 hb.1, aux_anyOutside, aux_anyOutside]
+  -- with equal tombstones "covered" is plain inclusion
+  have f1 : subB b.tomb a.tomb = true → coveredB a.live b.live b.tomb = subB a.live b.live := by
+    intro hq
+    rw [Bool.eq_iff_iff]
+    simp only [coveredB, subB, List.all_eq_true, Bool.or_eq_true, List.contains_iff_mem]
+    constructor
+    · intro h x hx
+      rcases h x hx with h | h
+      · exact h
+      · exact absurd ((aux_subB_iff _ _).mp hq x h) (had x hx)
+    · intro h x hx; exact Or.inl (h x hx)
+  have f2 : subB a.tomb b.tomb = true → coveredB b.live a.live a.tomb = subB b.live a.live := by
+    intro hp
+    rw [Bool.eq_iff_iff]
+    simp only [coveredB, subB, List.all_eq_true, Bool.or_eq_true, List.contains_iff_mem]
+    constructor
+    · intro h x hx
+      rcases h x hx with h | h
+      · exact h
+      · exact absurd ((aux_subB_iff _ _).mp hp x h) (hbd x hx)
+    · intro h x hx; exact Or.inl (h x hx)
+  cases hp : subB a.tomb b.tomb <;> cases hq : subB b.tomb a.tomb <;>
+    cases hu : coveredB a.live b.live b.tomb <;> cases hv : coveredB b.live a.live a.tomb <;>
+    simp_all [ordOf, Gen.setOuter, Gen.setTombLess, Gen.setTombGreater, Gen.setFilterTable]
+
+/-- `==` ⇔ same live items and same tombstones -/
+theorem eq_iff (a b : TSet α) (ha : a.WF) (hb : b.WF) :
+    eq a b = true ↔ (∀ x, x ∈ a.live ↔ x ∈ b.live) ∧ (∀ x, x ∈ a.tomb ↔ x ∈ b.tomb) := by
+  unfold eq
+  constructor
+  · intro h
+    by_cases hl : a.live.length = b.live.length ∧ a.tomb.length = b.tomb.length
+    · simp only [hl.1, hl.2, bne_self_eq_false, Bool.or_self, Bool.false_eq_true, if_false,
+        Bool.and_eq_true] at h
+      have r1 := aux_sub_perm ha.1 h.1 (by omega)
+      have r2 := aux_sub_perm ha.2 h.2 (by omega)
+      exact ⟨fun x => ⟨(aux_subB_iff _ _).mp h.1 x, (aux_subB_iff _ _).mp r1 x⟩,
+             fun x => ⟨(aux_subB_iff _ _).mp h.2 x, (aux_subB_iff _ _).mp r2 x⟩⟩
+    · exfalso
+      have : (a.live.length != b.live.length || a.tomb.length != b.tomb.length) = true := by
+        simp only [Bool.or_eq_true, bne_iff_ne]; omega
+      simp [this] at h
+  · rintro ⟨hl, ht⟩
+    have pl : a.live.Perm b.live := (List.perm_ext_iff_of_nodup ha.1 hb.1).mpr hl
+    have pt : a.tomb.Perm b.tomb := (List.perm_ext_iff_of_nodup ha.2 hb.2).mpr ht
+    simp only [pl.length_eq, pt.length_eq, bne_self_eq_false, Bool.or_self, Bool.false_eq_true, if_false,
+      Bool.and_eq_true]
+    exact ⟨(aux_subB_iff _ _).mpr fun x hx => (hl x).mp hx, (aux_subB_iff _ _).mpr fun x hx => (ht x).mp hx⟩
+
+/-- `a == b` ⇔ `partial_cmp(a, b) == Some(Equal)` ⇔ `a ≤ b ∧ b ≤ a` -/
+theorem eq_iff_cmp_equal (a b : TSet α) (ha : a.WF) (hb : b.WF) (had : a.Disjoint) (hbd : b.Disjoint) :
+    (eq a b = true ↔ cmp a b = some .eq) ∧ (cmp a b = some .eq ↔ leB a b = true ∧ leB b a = true) := by
+  have h2 : cmp a b = some .eq ↔ leB a b = true ∧ leB b a = true := by
+    rw [cmp_spec a b ha hb had hbd]
+    cases leB a b <;> cases leB b a <;> simp [ordOf]
+  refine ⟨?_, h2⟩
+  rw [h2, eq_iff a b ha hb, aux_leB_iff, aux_leB_iff]
+  constructor
+  · rintro ⟨hl, ht⟩
+    exact ⟨⟨fun x hx => (ht x).mp hx, fun x hx => Or.inl ((hl x).mp hx)⟩,
+           ⟨fun x hx => (ht x).mpr hx, fun x hx => Or.inl ((hl x).mpr hx)⟩⟩
+  · rintro ⟨⟨t1, l1⟩, ⟨t2, l2⟩⟩
+    refine ⟨fun x => ⟨fun hx => ?_, fun hx => ?_⟩, fun x => ⟨t1 x, t2 x⟩⟩
+    · rcases l1 x hx with h | h
+      · exact h
+      · exact absurd (t2 x h) (had x hx)
+    · rcases l2 x hx with h | h
+      · exact h
+      · exact absurd (t1 x h) (hbd x hx)
+
+end TSet
+
+example : TSet.cmp (⟨[1, 2], [3]⟩ : TSet Nat) ⟨[2], [3, 1]⟩ = some .lt := by decide
+example : TSet.cmp (⟨[1, 2], [3]⟩ : TSet Nat) ⟨[2, 4], [1]⟩ = none := by decide
+example : TSet.leB (⟨[1, 2], [3]⟩ : TSet Nat) ⟨[2], [3, 1]⟩ = true ∧ TSet.leB (⟨[2], [3, 1]⟩ : TSet Nat) ⟨[1, 2], [3]⟩ = false := by decide
+
+end CmpSets
+
+namespace TMap
+section CmpMaps
+variable {κ V : Type} [DecidableEq κ] {L : Type} [SemilatticeSup L] [OrderBot L]
+
+open Classical in
+/-- the three-way answer of a partial order from its two `≤` statements -/
+noncomputable def ordP (p q : Prop) : Option Ordering :=
+  if p then (if q then some .eq else some .lt) else if q then some .gt else none
+
+/-- what is assumed of the value lattice's `PartialOrd` / `IsBot` (C03 proves it for the shipped ones;
+`setCmpOps_spec` for the set-union values the harness runs) -/
+structure CmpSpec (c : CmpOps V) (absV : V → L) (P : V → Prop) : Prop where
+  cmp_abs : ∀ x y, P x → P y → c.cmp x y = ordP (absV x ≤ absV y) (absV y ≤ absV x)
+  isBot_iff : ∀ v, c.isBot v = true ↔ absV v = ⊥
+
+/-- the order of the lattice: `a ≤ b` iff `a`'s tombstones are `b`'s and, outside `b`'s tombstones, every value of
+`a` is below `b`'s (absent = bottom) -/
+def LeM (absV : V → L) (a b : TMap κ V) : Prop :=
+  (∀ k ∈ a.tomb, k ∈ b.tomb) ∧ ∀ k, k ∉ b.tomb → valAt absV a.map k ≤ valAt absV b.map k
+
+def isNoneO : Option Ordering → Bool | none => true | _ => false
+def isGtO : Option Ordering → Bool | some .gt => true | _ => false
+def isLtO : Option Ordering → Bool | some .lt => true | _ => false
+
+/-- the loop, characterised: it answers `None` iff some key is incomparable or both flags end up raised;
+otherwise the flags are the disjunctions over the keys -/
+theorem aux_cmpLoop (c : CmpOps V) (a b : List (κ × V)) (ks : List κ) (sg og : Bool) (h : (sg && og) = false) :
+    cmpLoop c a b ks (sg, og) =
+      if ks.any (fun k => isNoneO (keyCmp c a b k)) ||
+          ((sg || ks.any (fun k => isGtO (keyCmp c a b k))) &&
+           (og || ks.any (fun k => isLtO (keyCmp c a b k)))) then none
+      else some (sg || ks.any (fun k => isGtO (keyCmp c a b k)),
+                 og || ks.any (fun k => isLtO (keyCmp c a b k))) := by
+  induction ks generalizing sg og with
+  | nil => simp [cmpLoop, h]
+  | cons k ks ih =>
+    have key : ∀ r : Option Ordering,
+        (match raise sg og r with
+          | none => none
+          | some (sg', og') => if (sg' && og') = true then none else cmpLoop c a b ks (sg', og')) =
+        if (isNoneO r || ks.any (fun k => isNoneO (keyCmp c a b k))) ||
+            ((sg || (isGtO r || ks.any (fun k => isGtO (keyCmp c a b k)))) &&
+             (og || (isLtO r || ks.any (fun k => isLtO (keyCmp c a b k))))) then none
+        else some (sg || (isGtO r || ks.any (fun k => isGtO (keyCmp c a b k))),
+                   og || (isLtO r || ks.any (fun k => isLtO (keyCmp c a b k)))) := by
+      intro r
+      cases r with
+      | none => simp [raise, isNoneO]
+      | some o =>
+        cases o with
+        | lt =>
+          simp only [raise]
+          cases sg with
+          | true => simp [isNoneO, isGtO, isLtO]
+          | false => rw [if_neg (by simp), ih false true (by simp)]; simp [isNoneO, isGtO, isLtO]
+        | eq =>
+          simp only [raise]
+          rw [if_neg (by simp [h]), ih sg og h]; simp [isNoneO, isGtO, isLtO]
+        | gt =>
+          simp only [raise]
+          cases og with
+          | true => simp [isNoneO, isGtO, isLtO]
+          | false => rw [if_neg (by simp), ih true false (by simp)]; simp [isNoneO, isGtO, isLtO]
+    simp only [cmpLoop, List.any_cons]
+    exact key _
+
+/-- the final table on its reachable rows is the product of the two component tests -/
+theorem aux_mapFinalTable (sg og stg otg : Bool) (h1 : (sg && og) = false) (h2 : (stg && otg) = false) :
+    Gen.mapFinalTable sg og stg otg = some (ordOf (!sg && !stg) (!og && !otg)) := by
+  cases sg <;> cases og <;> cases stg <;> cases otg <;> simp_all [Gen.mapFinalTable, ordOf]
+
+theorem aux_ordP_of_bool {p q : Prop} {bp bq : Bool} (hp : p ↔ bp = true) (hq : q ↔ bq = true) :
+    ordP p q = ordOf bp bq := by
+  unfold ordP ordOf
+  cases bp <;> cases bq <;> simp_all
+
+theorem aux_lookup_of_mem {X : Type} (m : List (κ × X)) (nd : (keys m).Nodup) (k : κ) (v : X)
+    (h : (k, v) ∈ m) : lookup m k = some v := by
+  induction m with
+  | nil => cases h
+  | cons kv m ih =>
+    obtain ⟨k', v'⟩ := kv
+    simp only [keys, List.map_cons, List.nodup_cons] at nd
+    rw [aux_lookup_cons]
+    rcases List.mem_cons.mp h with h | h
+    · injection h with h1 h2; subst h1; subst h2; simp
+    · have hk : k ∈ keys m := List.mem_map.mpr ⟨(k, v), h, rfl⟩
+      have : k' ≠ k := fun e => nd.1 (e ▸ hk)
+      simp only [this, if_false]
+      exact ih nd.2 h
+
+theorem aux_lookup_mem {X : Type} (m : List (κ × X)) (k : κ) (v : X) (h : lookup m k = some v) : (k, v) ∈ m := by
+  induction m with
+  | nil => simp [aux_lookup_nil] at h
+  | cons kv m ih =>
+    obtain ⟨k', v'⟩ := kv
+    rw [aux_lookup_cons] at h
+    by_cases e : k' = k
+    · simp only [e, if_true, Option.some.injEq] at h; subst h; subst e; simp
+    · simp only [e, if_false] at h; exact List.mem_cons_of_mem _ (ih h)
+
+theorem aux_mem_liveKeys (c : CmpOps V) (t1 t2 : List κ) (m : List (κ × V)) (k : κ) :
+    k ∈ liveKeys c t1 t2 m ↔ ∃ v, (k, v) ∈ m ∧ c.isBot v = false ∧ k ∉ t1 ∧ k ∉ t2 := by
+  simp only [liveKeys, List.mem_map, List.mem_filter, Bool.and_eq_true, Bool.not_eq_true',
+    List.contains_iff_mem, decide_eq_false_iff_not, Prod.exists]
+  constructor
+  · rintro ⟨k', v, ⟨hm, ⟨hb, h1⟩, h2⟩, rfl⟩
+    exact ⟨v, hm, hb, by simpa using h1, by simpa using h2⟩
+  · rintro ⟨v, hm, hb, h1, h2⟩
+    exact ⟨k, v, ⟨hm, ⟨hb, by simpa using h1⟩, by simpa using h2⟩, rfl⟩
+
+variable {c : CmpOps V} {absV : V → L} {P : V → Prop}
+
+/-- a key of the loop contributes the comparison of the two values (absent = bottom) -/
+theorem aux_keyCmp_spec (spec : CmpSpec c absV P) (a b : TMap κ V)
+    (nda : (keys a.map).Nodup) (ndb : (keys b.map).Nodup)
+    (pa : ∀ kv ∈ a.map, P kv.2) (pb : ∀ kv ∈ b.map, P kv.2) (k : κ)
+    (hk : k ∈ liveKeys c a.tomb b.tomb a.map ++ liveKeys c a.tomb b.tomb b.map) :
+    keyCmp c a.map b.map k =
+      ordP (valAt absV a.map k ≤ valAt absV b.map k) (valAt absV b.map k ≤ valAt absV a.map k) := by
+  unfold keyCmp valAt
+  rw [List.mem_append, aux_mem_liveKeys, aux_mem_liveKeys] at hk
+  cases ha : lookup a.map k with
+  | some x =>
+    cases hb : lookup b.map k with
+    | some y => simp only [spec.cmp_abs x y (pa _ (aux_lookup_mem _ _ _ ha)) (pb _ (aux_lookup_mem _ _ _ hb))]
+    | none =>
+      have hx : absV x ≠ ⊥ := by
+        rcases hk with ⟨v, hm, hbv, _, _⟩ | ⟨v, hm, _, _, _⟩
+        · have := aux_lookup_of_mem _ nda k v hm
+          rw [ha] at this; injection this with e; subst e
+          intro h; rw [(spec.isBot_iff x).mpr h] at hbv; cases hbv
+        · have := aux_lookup_of_mem _ ndb k v hm
+          rw [hb] at this; cases this
+      simp only [ordP, le_bot_iff, hx, bot_le, if_false, if_true]
+  | none =>
+    cases hb : lookup b.map k with
+    | some y =>
+      have hy : absV y ≠ ⊥ := by
+        rcases hk with ⟨v, hm, _, _, _⟩ | ⟨v, hm, hbv, _, _⟩
+        · have := aux_lookup_of_mem _ nda k v hm
+          rw [ha] at this; cases this
+        · have := aux_lookup_of_mem _ ndb k v hm
+          rw [hb] at this; injection this with e; subst e
+          intro h; rw [(spec.isBot_iff y).mpr h] at hbv; cases hbv
+      simp only [ordP, le_bot_iff, hy, bot_le, if_false, if_true]
+    | none =>
+      exfalso
+      rcases hk with ⟨v, hm, _, _, _⟩ | ⟨v, hm, _, _, _⟩
+      · have := aux_lookup_of_mem _ nda k v hm; rw [ha] at this; cases this
+      · have := aux_lookup_of_mem _ ndb k v hm; rw [hb] at this; cases this
+
+/-- outside the loop's keys and the tombstones both values are bottom -/
+theorem aux_valAt_bot_of_not_live (spec : CmpSpec c absV P) (m : List (κ × V)) (t1 t2 : List κ) (k : κ)
+    (h1 : k ∉ t1) (h2 : k ∉ t2) (hk : k ∉ liveKeys c t1 t2 m) : valAt absV m k = ⊥ := by
+  unfold valAt
+  cases hl : lookup m k with
+  | none => rfl
+  | some v =>
+    have hm := aux_lookup_mem m k v hl
+    cases hb : c.isBot v with
+    | true => exact (spec.isBot_iff v).mp hb
+    | false => exact absurd ((aux_mem_liveKeys c t1 t2 m k).mpr ⟨v, hm, hb, h1, h2⟩) hk
+
+theorem aux_valAt_bot_of_tomb (a : TMap κ V) (had : a.Disjoint) (k : κ) (h : k ∈ a.tomb) :
+    valAt absV a.map k = ⊥ := by
+  unfold valAt
+  have : lookup a.map k = none := by
+    rw [aux_lookup_none_iff]; intro hk; exact had k hk h
+  rw [this]
+
+theorem aux_any_not_contains (s t : List κ) : (s.any fun k => !t.contains k) = false ↔ ∀ k ∈ s, k ∈ t := by
+  simp
+
+/-- `a ≤ b`, reduced to the tombstone test and the keys of the loop -/
+theorem aux_LeM_iff (spec : CmpSpec c absV P) (a b : TMap κ V) (had : a.Disjoint) :
+    LeM absV a b ↔ (a.tomb.any fun k => !b.tomb.contains k) = false ∧
+      ∀ k ∈ liveKeys c a.tomb b.tomb a.map ++ liveKeys c a.tomb b.tomb b.map,
+        valAt absV a.map k ≤ valAt absV b.map k := by
+  rw [aux_any_not_contains]
+  unfold LeM
+  constructor
+  · rintro ⟨ht, hv⟩
+    refine ⟨ht, fun k hk => hv k ?_⟩
+    rw [List.mem_append, aux_mem_liveKeys, aux_mem_liveKeys] at hk
+    rcases hk with ⟨_, _, _, _, h⟩ | ⟨_, _, _, _, h⟩ <;> exact h
+  · rintro ⟨ht, hv⟩
+    refine ⟨ht, fun k hkb => ?_⟩
+    by_cases hka : k ∈ a.tomb
+    · rw [aux_valAt_bot_of_tomb a had k hka]; exact bot_le
+    · by_cases hk : k ∈ liveKeys c a.tomb b.tomb a.map ++ liveKeys c a.tomb b.tomb b.map
+      · exact hv k hk
+      · rw [List.mem_append, not_or] at hk
+        rw [aux_valAt_bot_of_not_live spec a.map a.tomb b.tomb k hka hkb hk.1]; exact bot_le
+
+theorem aux_ordP_flags (p q : Prop) :
+    (isNoneO (ordP p q) = true ↔ ¬p ∧ ¬q) ∧ (isGtO (ordP p q) = true ↔ ¬p ∧ q) ∧
+      (isLtO (ordP p q) = true ↔ p ∧ ¬q) := by
+  unfold ordP
+  by_cases hp : p <;> by_cases hq : q <;> simp [hp, hq, isNoneO, isGtO, isLtO]
+
+/-- **`partial_cmp` of the map lattice is the order of the lattice**: `Some(Less)` ⇔ `a ≤ b` only, `Some(Greater)` ⇔
+`b ≤ a` only, `Some(Equal)` ⇔ both, `None` ⇔ neither, and no `unreachable!()` row of the final table is reached — for
+states that keep map keys and tombstones apart (what merges produce, `reachable_disjoint`), with distinct keys and a
+value lattice whose own `partial_cmp` / `is_bot` are right (`CmpSpec`).  The final table is the one regenerated
+from the source. -/
+theorem cmp_spec (spec : CmpSpec c absV P) (a b : TMap κ V) (had : a.Disjoint) (hbd : b.Disjoint)
+    (nda : (keys a.map).Nodup) (ndb : (keys b.map).Nodup)
+    (pa : ∀ kv ∈ a.map, P kv.2) (pb : ∀ kv ∈ b.map, P kv.2) :
+    cmp c a b = some (ordP (LeM absV a b) (LeM absV b a)) := by
+  -- the loop's keys are the same for both directions (as a set)
+  have hks : ∀ k, k ∈ liveKeys c b.tomb a.tomb b.map ++ liveKeys c b.tomb a.tomb a.map ↔
+      k ∈ liveKeys c a.tomb b.tomb a.map ++ liveKeys c a.tomb b.tomb b.map := by
+    intro k
+    simp only [List.mem_append, aux_mem_liveKeys]
+    constructor <;> rintro (⟨v, h1, h2, h3, h4⟩ | ⟨v, h1, h2, h3, h4⟩)
+    · exact Or.inr ⟨v, h1, h2, h4, h3⟩
+    · exact Or.inl ⟨v, h1, h2, h4, h3⟩
+    · exact Or.inr ⟨v, h1, h2, h4, h3⟩
+    · exact Or.inl ⟨v, h1, h2, h4, h3⟩
+  have hab := aux_LeM_iff spec a b had
+  have hba := aux_LeM_iff spec b a hbd
+  simp only [hks] at hba
+  generalize hK : liveKeys c a.tomb b.tomb a.map ++ liveKeys c a.tomb b.tomb b.map = ks at hab hba
+  have hkc : ∀ k ∈ ks, keyCmp c a.map b.map k =
+      ordP (valAt absV a.map k ≤ valAt absV b.map k) (valAt absV b.map k ≤ valAt absV a.map k) :=
+    fun k hk => aux_keyCmp_spec spec a b nda ndb pa pb k (hK ▸ hk)
+  -- the flags of the loop, as statements about every key
+  have FA : (∀ k ∈ ks, valAt absV a.map k ≤ valAt absV b.map k) ↔
+      ks.any (fun k => isNoneO (keyCmp c a.map b.map k)) = false ∧
+      ks.any (fun k => isGtO (keyCmp c a.map b.map k)) = false := by
+    simp only [List.any_eq_false]
+    constructor
+    · intro h
+      exact ⟨fun k hk e => by rw [hkc k hk] at e; exact ((aux_ordP_flags _ _).1.mp e).1 (h k hk),
+             fun k hk e => by rw [hkc k hk] at e; exact ((aux_ordP_flags _ _).2.1.mp e).1 (h k hk)⟩
+    · rintro ⟨h1, h2⟩ k hk
+      by_contra hn
+      have n1 := h1 k hk; have n2 := h2 k hk
+      rw [hkc k hk] at n1 n2
+      by_cases hq : valAt absV b.map k ≤ valAt absV a.map k
+      · exact n2 ((aux_ordP_flags _ _).2.1.mpr ⟨hn, hq⟩)
+      · exact n1 ((aux_ordP_flags _ _).1.mpr ⟨hn, hq⟩)
+  have FB : (∀ k ∈ ks, valAt absV b.map k ≤ valAt absV a.map k) ↔
+      ks.any (fun k => isNoneO (keyCmp c a.map b.map k)) = false ∧
+      ks.any (fun k => isLtO (keyCmp c a.map b.map k)) = false := by
+    simp only [List.any_eq_false]
+    constructor
+    · intro h
+      exact ⟨fun k hk e => by rw [hkc k hk] at e; exact ((aux_ordP_flags _ _).1.mp e).2 (h k hk),
+             fun k hk e => by rw [hkc k hk] at e; exact ((aux_ordP_flags _ _).2.2.mp e).2 (h k hk)⟩
+    · rintro ⟨h1, h2⟩ k hk
+      by_contra hn
+      have n1 := h1 k hk; have n2 := h2 k hk
+      rw [hkc k hk] at n1 n2
+      by_cases hp : valAt absV a.map k ≤ valAt absV b.map k
+      · exact n2 ((aux_ordP_flags _ _).2.2.mpr ⟨hp, hn⟩)
+      · exact n1 ((aux_ordP_flags _ _).1.mpr ⟨hp, hn⟩)
+  rw [FA] at hab
+  rw [FB] at hba
+  unfold cmp
+  simp only [hK]
+  generalize (a.tomb.any fun k => !b.tomb.contains k) = stg at hab hba ⊢
+  generalize (b.tomb.any fun k => !a.tomb.contains k) = otg at hab hba ⊢
+  rw [aux_cmpLoop c a.map b.map ks false false rfl]
+  generalize ks.any (fun k => isNoneO (keyCmp c a.map b.map k)) = N at hab hba ⊢
+  generalize ks.any (fun k => isGtO (keyCmp c a.map b.map k)) = G at hab hba ⊢
+  generalize ks.any (fun k => isLtO (keyCmp c a.map b.map k)) = Lt at hab hba ⊢
+  cases stg <;> cases otg <;> cases N <;> cases G <;> cases Lt <;>
+    simp only [Bool.and_self, Bool.and_true, Bool.and_false, Bool.true_and, Bool.false_and, Bool.or_true,
+      Bool.or_false, Bool.true_or, Bool.false_or, Bool.false_eq_true, if_false, if_true, and_self, and_true,
+      and_false, true_and, false_and, reduceCtorEq] at hab hba ⊢ <;>
+    first
+      | (rw [aux_mapFinalTable _ _ _ _ rfl rfl, aux_ordP_of_bool (bp := _) (bq := _) (by simpa using hab) (by simpa using hba)])
+      | (simp only [ordP, hab, hba, if_false]; try rfl)
+
+end CmpMaps
+
+end TMap
+
+namespace TMap
+section CmpMaps2
+variable {κ V : Type} [DecidableEq κ] {L : Type} [SemilatticeSup L] [OrderBot L]
+variable {c : CmpOps V} {absV : V → L} {P : V → Prop}
+
+/-- **`a ≤ b` ⇔ merging `a` into `b` changes nothing**: same tombstones, same value at every key -/
+theorem le_iff_merge_noop {ops : ValOps V V} (vs : ValSpec ops absV absV) (a b : TMap κ V)
+    (hbd : b.Disjoint) (nda : (keys a.map).Nodup) :
+    LeM absV a b ↔
+      (∀ k, k ∈ (merge ops b a).1.tomb ↔ k ∈ b.tomb) ∧
+      ∀ k, valAt absV (merge ops b a).1.map k = valAt absV b.map k := by
+  unfold LeM
+  constructor
+  · rintro ⟨ht, hv⟩
+    refine ⟨fun k => ?_, fun k => ?_⟩
+    · rw [aux_tomb_merge]; have := ht k; tauto
+    · rw [merge_valAt vs b a hbd nda k]
+      by_cases hkb : k ∈ b.tomb
+      · simp only [hkb, true_or, if_true]; exact (aux_valAt_bot_of_tomb b hbd k hkb).symm
+      · have hka : k ∉ a.tomb := fun h => hkb (ht k h)
+        simp only [hkb, hka, or_self, if_false]
+        exact sup_eq_left.mpr (hv k hkb)
+  · rintro ⟨ht, hv⟩
+    have hta : ∀ k ∈ a.tomb, k ∈ b.tomb := fun k hk => (ht k).mp ((aux_tomb_merge ops b a k).mpr (Or.inr hk))
+    refine ⟨hta, fun k hkb => ?_⟩
+    have hka : k ∉ a.tomb := fun h => hkb (hta k h)
+    have := hv k
+    rw [merge_valAt vs b a hbd nda k] at this
+    simp only [hkb, hka, or_self, if_false] at this
+    exact sup_eq_left.mp this
+
+/-- what is assumed of the value lattice's `PartialEq` -/
+def EqSpec (c : CmpOps V) (absV : V → L) (P : V → Prop) : Prop :=
+  ∀ x y, P x → P y → (c.eq x y = true ↔ absV x = absV y)
+
+/-- **`==` ⇔ same tombstones and the same value at every key** (absent = bottom) -/
+theorem eq_iff (spec : CmpSpec c absV P) (es : EqSpec c absV P) (a b : TMap κ V)
+    (nta : a.tomb.Nodup) (ntb : b.tomb.Nodup) (nda : (keys a.map).Nodup) (ndb : (keys b.map).Nodup)
+    (pa : ∀ kv ∈ a.map, P kv.2) (pb : ∀ kv ∈ b.map, P kv.2) :
+    eq c a b = true ↔ (∀ k, k ∈ a.tomb ↔ k ∈ b.tomb) ∧ ∀ k, valAt absV a.map k = valAt absV b.map k := by
+  have memNb : ∀ (m : List (κ × V)) (k : κ),
+      k ∈ (m.filter fun kv => !c.isBot kv.2).map Prod.fst ↔ ∃ v, (k, v) ∈ m ∧ c.isBot v = false := by
+    intro m k
+    simp only [List.mem_map, List.mem_filter, Bool.not_eq_true', Prod.exists]
+    constructor
+    · rintro ⟨k', v, ⟨hm, hb⟩, rfl⟩; exact ⟨v, hm, hb⟩
+    · rintro ⟨v, hm, hb⟩; exact ⟨k, v, ⟨hm, hb⟩, rfl⟩
+  unfold eq
+  constructor
+  · intro h
+    by_cases hl : a.tomb.length = b.tomb.length
+    · simp only [hl, bne_self_eq_false, Bool.false_eq_true, if_false] at h
+      by_cases h1 : (a.tomb.any fun k => !b.tomb.contains k) = true
+      · rw [if_pos h1] at h; cases h
+      · by_cases h2 : (b.tomb.any fun k => !a.tomb.contains k) = true
+        · rw [if_neg h1, if_pos h2] at h; cases h
+        · rw [if_neg h1, if_neg h2] at h
+          simp only [List.all_eq_true, List.mem_append] at h
+          have s1 := (aux_any_not_contains a.tomb b.tomb).mp (by simpa using h1)
+          have s2 := (aux_any_not_contains b.tomb a.tomb).mp (by simpa using h2)
+          refine ⟨fun k => ⟨s1 k, s2 k⟩, fun k => ?_⟩
+          unfold valAt
+          cases ha : lookup a.map k with
+          | some x =>
+            have hxm := aux_lookup_mem _ _ _ ha
+            cases hb : lookup b.map k with
+            | some y =>
+              have hym := aux_lookup_mem _ _ _ hb
+              by_cases hbx : c.isBot x = true
+              · by_cases hby : c.isBot y = true
+                · simp only [(spec.isBot_iff x).mp hbx, (spec.isBot_iff y).mp hby]
+                · have := h k (Or.inr ((memNb b.map k).mpr ⟨y, hym, by simpa using hby⟩))
+                  simp only [ha, hb] at this
+                  exact (es x y (pa _ hxm) (pb _ hym)).mp this
+              · have := h k (Or.inl ((memNb a.map k).mpr ⟨x, hxm, by simpa using hbx⟩))
+                simp only [ha, hb] at this
+                exact (es x y (pa _ hxm) (pb _ hym)).mp this
+            | none =>
+              by_cases hbx : c.isBot x = true
+              · simp only [(spec.isBot_iff x).mp hbx]
+              · have := h k (Or.inl ((memNb a.map k).mpr ⟨x, hxm, by simpa using hbx⟩))
+                simp [ha, hb] at this
+          | none =>
+            cases hb : lookup b.map k with
+            | some y =>
+              have hym := aux_lookup_mem _ _ _ hb
+              by_cases hby : c.isBot y = true
+              · simp only [(spec.isBot_iff y).mp hby]
+              · have := h k (Or.inr ((memNb b.map k).mpr ⟨y, hym, by simpa using hby⟩))
+                simp [ha, hb] at this
+            | none => rfl
+    · have : (a.tomb.length != b.tomb.length) = true := by simpa using hl
+      simp [this] at h
+  · rintro ⟨ht, hv⟩
+    have pm : a.tomb.Perm b.tomb := (List.perm_ext_iff_of_nodup nta ntb).mpr ht
+    have h1 : (a.tomb.any fun k => !b.tomb.contains k) = false :=
+      (aux_any_not_contains _ _).mpr fun k hk => (ht k).mp hk
+    have h2 : (b.tomb.any fun k => !a.tomb.contains k) = false :=
+      (aux_any_not_contains _ _).mpr fun k hk => (ht k).mpr hk
+    simp only [pm.length_eq, bne_self_eq_false, Bool.false_eq_true, if_false, h1, h2, List.all_eq_true,
+      List.mem_append]
+    intro k hk
+    have hvk := hv k
+    unfold valAt at hvk
+    cases ha : lookup a.map k with
+    | some x =>
+      have hxm := aux_lookup_mem _ _ _ ha
+      cases hb : lookup b.map k with
+      | some y =>
+        simp only [ha, hb] at hvk
+        exact (es x y (pa _ hxm) (pb _ (aux_lookup_mem _ _ _ hb))).mpr hvk
+      | none =>
+        exfalso
+        simp only [ha, hb] at hvk
+        rcases hk with hk | hk
+        · obtain ⟨v, hm, hbv⟩ := (memNb a.map k).mp hk
+          have := aux_lookup_of_mem _ nda k v hm
+          rw [ha] at this; injection this with e; subst e
+          rw [(spec.isBot_iff x).mpr hvk] at hbv; cases hbv
+        · obtain ⟨v, hm, _⟩ := (memNb b.map k).mp hk
+          have := aux_lookup_of_mem _ ndb k v hm
+          rw [hb] at this; cases this
+    | none =>
+      cases hb : lookup b.map k with
+      | some y =>
+        exfalso
+        simp only [ha, hb] at hvk
+        rcases hk with hk | hk
+        · obtain ⟨v, hm, _⟩ := (memNb a.map k).mp hk
+          have := aux_lookup_of_mem _ nda k v hm
+          rw [ha] at this; cases this
+        · obtain ⟨v, hm, hbv⟩ := (memNb b.map k).mp hk
+          have := aux_lookup_of_mem _ ndb k v hm
+          rw [hb] at this; injection this with e; subst e
+          rw [(spec.isBot_iff y).mpr hvk.symm] at hbv; cases hbv
+      | none => rfl
+
+end CmpMaps2
+
+/-- the value lattice the driver runs (`SetUnion<HashSet<u64>>`, duplicate-free lists) meets `CmpSpec` / `EqSpec` -/
+theorem setCmpOps_spec :
+    CmpSpec setCmpOps (fun v : List Nat => ({x | x ∈ v} : Set Nat)) List.Nodup ∧
+    EqSpec setCmpOps (fun v : List Nat => ({x | x ∈ v} : Set Nat)) List.Nodup := by
+  refine ⟨⟨fun x y hx hy => ?_, fun w => ?_⟩, fun x y hx hy => ?_⟩
+  · show setCmp x y = _
+    rw [aux_setCmp_spec x y hx hy]
+    exact (aux_ordP_of_bool (by rw [aux_subB_iff]; exact Iff.rfl) (by rw [aux_subB_iff]; exact Iff.rfl)).symm
+  · exact setOps_spec.isBot_iff w
+  · show setEqLen x y = true ↔ _
+    unfold setEqLen
+    simp only [Bool.and_eq_true, beq_iff_eq]
+    constructor
+    · rintro ⟨hl, hs⟩
+      have := aux_sub_perm hx hs (by omega)
+      ext z; exact ⟨(aux_subB_iff _ _).mp hs z, (aux_subB_iff _ _).mp this z⟩
+    · intro h
+      have hm : ∀ z, z ∈ x ↔ z ∈ y := fun z => by
+        have := congrArg (fun S : Set Nat => z ∈ S) h; simpa using this
+      have pm : x.Perm y := (List.perm_ext_iff_of_nodup hx hy).mpr hm
+      exact ⟨pm.length_eq, (aux_subB_iff _ _).mpr fun z hz => (hm z).mp hz⟩
+
+
+/-- non-vacuity: the map comparison on the value lattice the driver runs; a pair that differs both in a live value
+and in the tombstones, in both incomparable and comparable ways -/
+example :
+    let a : TMap Nat (List Nat) := ⟨[(0, [5]), (1, [5, 6])], [2]⟩
+    let b : TMap Nat (List Nat) := ⟨[(0, [5, 6])], [1, 2]⟩
+    let d : TMap Nat (List Nat) := ⟨[(0, [6])], [1, 2]⟩
+    cmp setCmpOps a b = some (some .lt) ∧ cmp setCmpOps b a = some (some .gt) ∧
+    cmp setCmpOps a d = some none ∧ cmp setCmpOps a a = some (some .eq) ∧
+    eq setCmpOps a a = true ∧ eq setCmpOps a b = false := by decide
 
 end TMap
 
